@@ -247,8 +247,26 @@ pub trait Translator {
             {
                 // get the entry index for the first/head block in the successor
                 let (block_entry, _) = block_indices[successor_address];
-                // check for duplicate edges
-                if control_flow_graph.edge(block_exit, block_entry).is_ok() {
+                // Two successors may lead to the same block (a conditional
+                // branch to its own fall-through address, for example). There
+                // is one edge per pair of blocks, and it must be taken when
+                // either of them is.
+                if let Ok(edge) = control_flow_graph.edge_mut(block_exit, block_entry) {
+                    match (edge.condition().cloned(), successor_condition) {
+                        (Some(existing), Some(condition)) => {
+                            if existing != *condition {
+                                *edge = il::Edge::new(
+                                    block_exit,
+                                    block_entry,
+                                    Some(il::Expression::or(existing, condition.clone())?),
+                                );
+                            }
+                        }
+                        (Some(_), None) => {
+                            *edge = il::Edge::new(block_exit, block_entry, None);
+                        }
+                        (None, _) => {}
+                    }
                     continue;
                 }
                 match successor_condition {
